@@ -786,20 +786,23 @@ class Layer(BaseObject):
         data = notification.data
         oldName = data["oldValue"]
         newName = data["newValue"]
-        glyph = self._glyphs[oldName]
-        self._deleteGlyph(oldName, endObservations=False)
-        # the glyph has neither been read from nor written to a file of
-        # its new name: the state of the old file (recorded above for the
-        # scheduled deletion) must not be compared with that file.
-        glyph._dataOnDisk = None
-        glyph._dataOnDiskTimeStamp = None
-        if self._unicodeData is not None:
-            self._unicodeData.removeGlyphData(oldName, glyph.unicodes)
-            if newName in self:
-                # a glyph stored under the new name is being replaced:
-                # its code points leave the map, as they do in newGlyph
-                self._unicodeData.removeGlyphData(newName, self[newName].unicodes)
-        self._insertGlyph(glyph, beginObservations=False)
+        glyph = notification.object
+        if self._glyphs.get(oldName) is glyph:
+            self._deleteGlyph(oldName, endObservations=False)
+            # the glyph has neither been read from nor written to a file of
+            # its new name: the state of the old file (recorded above for the
+            # scheduled deletion) must not be compared with that file.
+            glyph._dataOnDisk = None
+            glyph._dataOnDiskTimeStamp = None
+            if self._unicodeData is not None:
+                self._unicodeData.removeGlyphData(oldName, glyph.unicodes)
+                if newName in self:
+                    # a glyph stored under the new name is being replaced:
+                    # its code points leave the map, as they do in newGlyph
+                    self._unicodeData.removeGlyphData(newName, self[newName].unicodes)
+            self._insertGlyph(glyph, beginObservations=False)
+        # (otherwise the notification was held while the glyph was renamed
+        # again: the glyph is filed under its current name already)
         self.postNotification("Layer.GlyphNameChanged", data=dict(oldValue=oldName, newValue=newName))
 
     def _glyphUnicodesChange(self, notification):
